@@ -18,6 +18,8 @@ through every test of it, including the negated copy `needs_remapping`):
                 old and new fragments; with address ids and no deferral the indices are remapped with the collected row map
                 (remap_indices) and their result becomes rewritten_indices; with deferral the fragment-reuse index is built
                 from the tasks' changed addresses; read version = the dataset's version
+  ORIGIN-remap-chained  FragReuseIndex::remap_row_id (what every index reads through while remapping is deferred) walks all
+                address maps and looks each one up with the running value, so that two deferred compactions compose
 Not decided: the multiset of rows and the maps' values, index answers, planning (which fragments are picked).
 """
 from engine.cfg import op_place
@@ -328,9 +330,38 @@ def commit(db, chk):
     chk.ob(R, "needs-remapping-def", okn, "needs_remapping is computed from uses_stable_row_ids() and options.defer_index_remap", body.loc())
 
 
+def deferred_remap_is_chained(db, chk):
+    """With deferred remapping the fragment-reuse index holds one address map per compaction that has not been folded into the
+    indices yet; an index entry written before two of them has to be taken through both, oldest first (the output fragment of
+    the first compaction is an input of the second).  Every index type reads through FragReuseIndex::remap_row_id."""
+    R = "ORIGIN-remap-chained"
+    chk.rule(R, "FragReuseIndex::remap_row_id walks all of row_id_maps and looks each map up with the RUNNING value (the key of the "
+                "lookup depends on the result of the previous lookup), not with the original address every time")
+    f = db.one(r"frag_reuse::FragReuseIndex::remap_row_id$", file="lance-index/src/frag_reuse.rs")
+    fam = [g for g in f.family() if g.focus]
+    for g in fam:
+        chk.analysed(g)
+    walks = [(g, b, t) for g in fam for b, t in g.cfg.calls() if has_name(t, "<impl [T]>::iter", "IntoIterator>::into_iter", "::into_iter") and
+             ("field", "row_id_maps") in g.cfg.op_origins(t["args"][0], transparent=T)]
+    chk.ob(R, "walks-all-maps", bool(walks), "remap_row_id iterates self.row_id_maps (%d iteration(s))" % len(walks), f.loc())
+    gets = [(g, b, t) for g in fam for b, t in g.cfg.calls() if "HashMap" in name_of(t) and name_of(t).endswith("::get") and len(t["args"]) == 2]
+    chk.ob(R, "looks-up", bool(gets), "%d HashMap::get lookup(s) in remap_row_id" % len(gets), f.loc())
+    for n, (g, b, t) in enumerate(gets):
+        o = g.cfg.op_origins(t["args"][1], transparent=T)
+        carried = any(x[0] in ("via", "call") and x[1] and "HashMap" in x[1] and x[1].endswith("::get") for x in o)
+        accumulator = g.parent is not None and any(x[0] == "arg" and x[1] >= 2 for x in o)
+        chk.ob(R, "key-is-running-value:%d" % n, carried or accumulator,
+               "the key of the lookup %s" % ("is the running value (it can hold the previous lookup's result)" if carried else
+                                             "comes from the closure's accumulator argument" if accumulator else
+                                             "is always the original address: only the first compaction that touched the row is applied, "
+                                             "a second deferred compaction leaves the index pointing into a fragment that no longer exists"),
+               g.loc(t["ln"]))
+
+
 def run(db, chk):
     rewrite_files(db, chk)
     rechunk(db, chk)
     commit(db, chk)
+    deferred_remap_is_chained(db, chk)
     chk.assume("write_fragments_internal writes exactly the rows of the stream it is given, in order; transpose_row_addrs, rechunk_sequences, "
                "rechunk_version_sequences and the remapper compute the right values (not decided here)")
